@@ -130,6 +130,82 @@ def check_data_untouched(project: Project, rep):
                                                      f"({len(s.repo_calls)} repo calls followed)")
 
 
+def _ft_semantic(project: Project):
+    """fit_transform(X, skew) against fit(X, skew); transform(X, skew), by evaluation: the per-diagram routine is observed
+    instead of executed, and what it is handed — the diagram in birth–persistence coordinates, whether converted before the
+    call or by the routine's own `skew` — and the fitted ranges must agree.  'ok' / 'differs: why' / None (not followed)."""
+    from ..core import sym as _sym
+    from ..core.values import Arr, Sc, Seq
+    from .c11 import TR, _imager
+    from .distances import dgm_input
+    c = project.cls(IMG)
+    callee = project.function(TR)
+
+    def effective(bound):
+        d = bound.get(callee.params[0])
+        sk = bound.get("skew")
+        if not (isinstance(d, Arr) and d.ndim == 2 and d.axes[1][0].concrete == 2 and isinstance(sk, Sc) and sk.e in (_sym.TRUE, _sym.FALSE)):
+            return None
+        d = d.renamed()
+        iv = d.axes[1][1]
+        b, q = _sym.subst_ivar(d.elem, iv, 0), _sym.subst_ivar(d.elem, iv, 1)
+        if sk.e == _sym.TRUE:
+            q = _sym.sub(q, b)
+        riv = d.axes[0][1]
+        return _sym.subst_ivar(b, riv, ("$r", 0)), _sym.subst_ivar(q, riv, ("$r", 0))
+
+    def run(style, skew):
+        I, obj = _imager(project)
+        I.cfg.nonempty |= {("rows", "X")}
+        I.cfg.finite_inputs |= {"X"}
+        calls = []
+
+        def stub(I_, bound, n):
+            calls.append(dict(bound))
+            return Sc(_sym.Opq("image", (), f"img#{len(calls)}"))
+        I.cfg.flags["stub_func"] = {TR: stub}
+        X = dgm_input("X")
+        sk = Sc(_sym.Bool(skew))
+        n_um, n_lo = len(I.unmodelled), len(I.lossy)
+        if style == "combined":
+            r = I.call_function(c.methods["fit_transform"], [obj, X], {"skew": sk}, None)
+        else:
+            I.call_function(c.methods["fit"], [obj, X], {"skew": sk}, None)
+            r = I.call_function(c.methods["transform"], [obj, X], {"skew": sk}, None)
+        if len(I.unmodelled) > n_um or len(I.lossy) > n_lo or len(calls) != 1:
+            return None
+        eff = effective(calls[0])
+        state = []
+        for k in ("_birth_range", "_pers_range", "_resolution"):
+            v = obj.attrs.get(k)
+            state += [x.e for x in v.items if isinstance(x, Sc)] if isinstance(v, Seq) else [None]
+        return eff, state, repr(r)
+    try:
+        for skew in (True, False):
+            a, b = run("combined", skew), run("separate", skew)
+            if a is None or b is None or a[0] is None or b[0] is None:
+                return None
+            for k, what in ((0, "birth"), (1, "persistence")):
+                if not _sym.equal(a[0][k], b[0][k]):
+                    return (f"differs: with skew={skew} fit_transform hands the kernel the {what} coordinate "
+                            f"{_sym.show(a[0][k])[:60]}, fit followed by transform {_sym.show(b[0][k])[:60]}")
+            if len(a[1]) != len(b[1]) or None in a[1] or None in b[1]:
+                return None
+            from ..core import symeval as _se
+            for x, y in zip(a[1], b[1]):
+                ok_, w_ = (True, None) if _sym.equal(x, y) else _se.equivalent(x, y, positive_syms={"p"}, trials=8)
+                if ok_ is False:
+                    return (f"differs: with skew={skew} the fitted ranges / resolution differ between the two call styles "
+                            f"({_sym.show(x)[:50]} vs {_sym.show(y)[:50]})")
+                if ok_ is not True:
+                    return None
+            if a[2] != b[2]:
+                return f"differs: with skew={skew} fit_transform returns {a[2][:50]}, transform after fit {b[2][:50]}"
+        return "ok"
+    except Exception:
+        return None
+
+
 def check_ft(project: Project, rep):
     c = project.cls(IMG)
     ft = c.methods.get("fit_transform")
@@ -157,8 +233,18 @@ def check_ft(project: Project, rep):
             src_ok = af == data_p or any(isinstance(n, ast.Assign) and isinstance(n.targets[0], ast.Name) and n.targets[0].id == af
                                          and any(isinstance(x, ast.Name) and x.id == data_p for x in ast.walk(n.value))
                                          for n in ast.walk(f))
+            sem = _ft_semantic(project) if not (same_data and same_flags and src_ok) else None
             if same_data and same_flags and src_ok:
                 rep.discharged("TF-FT", ft, ct, "fit_transform = fit(X′, skew) then transform(X′, skew) on the same data")
+            elif sem == "ok":
+                rep.discharged("TF-FT", ft, ct, "fit_transform was evaluated against fit followed by transform (skew on and off): the "
+                                                "kernel is handed the same birth–persistence coordinates and the fitted geometry is the same")
+            elif sem is not None:
+                rep.refuted("TF-FT", ft, ct, "fit_transform differs from fit followed by transform: " + sem[9:],
+                            construct=f"{ft.qualname}: fit_transform vs fit + transform")
+            elif kf.get("skew") == kt.get("skew") and same_data:
+                rep.unmodelled("TF-FT", ft, ct, f"fit and transform receive the same data and the same flag (skew={kf.get('skew')}), but "
+                                                f"not the caller's: the equivalence with separate calls could not be evaluated")
             else:
                 why = []
                 if not same_data:
@@ -169,7 +255,10 @@ def check_ft(project: Project, rep):
                     why.append("the data is not the argument")
                 rep.refuted("TF-FT", ft, ct, "fit_transform differs from fit followed by transform: " + "; ".join(why))
             rets = [n for n in ast.walk(f) if isinstance(n, ast.Return)]
-            if rets and isinstance(rets[-1].value, ast.Name):
+            if sem == "ok":
+                rep.discharged("TF-FT", ft, rets[-1] if rets else f, "fit_transform returns what transform returns for the same call "
+                                                                    "(compared by evaluation)", nontrivial=False)
+            elif rets and isinstance(rets[-1].value, ast.Name):
                 src = [n for n in ast.walk(f) if isinstance(n, ast.Assign) and isinstance(n.targets[0], ast.Name)
                        and n.targets[0].id == rets[-1].value.id]
                 if src and src[-1].value is ct:
@@ -325,6 +414,41 @@ def check_order_semantic(project: Project, rep) -> str:
                                 construct=f"{m.qualname}: order of the images", failing_input=f"a collection of {n_dgm} diagrams")
                     return "refuted"
                 n_runs += 1
+    # a collection given as ONE (k, n, 2) array (a stack of equally long diagrams): image k is the image of ALL of stack[k]
+    from ..core.values import fix, fresh, rows
+    m = c.methods.get("transform")
+    if m is not None:
+        kk, ii, jj = fresh(), fresh(), fresh()
+        Z = Arr([(fix(2), kk), (rows("Z"), ii), (fix(2), jj)], sym.In("Z", ((kk, 0), (ii, 0), (jj, 0))), "nd")
+        seen_ = []
+
+        def stub3(I_, bound, n):
+            d = bound.get(callee.params[0])
+            if isinstance(d, Arr) and d.ndim == 2:
+                ins = [x for x in sym.walk(d.elem) if x[0] == "in" and x[1] == "Z"]
+                ks = {x[2][0] for x in ins if isinstance(x[2][0], int)}
+                whole = d.axes[0][0].key == ("rows", "Z")
+                if len(ks) == 1 and ins:
+                    seen_.append((next(iter(ks)), whole, sym.show(d.axes[0][0].size)))
+                    return Sc(sym.Opq("image-of", (sym.Sym(f"Z{next(iter(ks))}" + ("" if whole else "-part")),), None))
+            return I_.unknown("per-diagram-argument", n)
+        I = Interp(project, Config(nonempty={("rows", "Z")}, finite_inputs={"Z"}, flags={"stub_func": {TRQ: stub3}}))
+        obj = I.construct(IMG, [], {"birth_range": Seq([S("b0"), S("b1")], "tuple"),
+                                    "pers_range": Seq([S("q0"), S("q1")], "tuple"), "pixel_size": S("p")}, None)
+        try:
+            r = I.call_function(m, [obj, Z], {}, None)
+        except Exception:
+            r = None
+        if r is not None and not I.unmodelled and not I.lossy and len(seen_) == 2:
+            if [k_ for k_, _, _ in seen_] == [0, 1] and all(w_ for _, w_, _ in seen_):
+                rep.discharged("TF-ORDER", m, m.node, "a collection given as one (k, n, 2) array: image k is computed from all the pairs of "
+                                                      "stack[k]", nontrivial=False)
+            elif [k_ for k_, _, _ in seen_] == [0, 1]:
+                rep.refuted("TF-ORDER", m, m.node,
+                            f"a collection given as one (k, n, 2) array: the per-diagram routine receives only {seen_[0][2]} of the "
+                            f"pairs of stack[k] — transform(stack)[k] is not transform(stack[k])",
+                            construct=f"{m.qualname}: stacked collection", failing_input="np.stack of two diagrams with more pairs")
+                return "refuted"
     rep.discharged("TF-ORDER", c.methods["transform"], c.methods["transform"].node,
                    f"evaluated on collections of 2 to 5 diagrams ({n_runs} runs: transform serial and n_jobs=2, fit_transform): "
                    f"position k of the result is the image of diagram k")
